@@ -1,5 +1,6 @@
 """C18 The shipped storage backends are interchangeable (structural sibling agreement)"""
 import ast
+import copy
 from ..model import *
 from ..util import *
 from ..facts import *
@@ -163,6 +164,18 @@ def rule_mode(ctx):
     for mode, spec in SPEC.items():
         paths = _mode_paths(p, op_, mode)
         rets = [(ev, o) for ev, o, _ in paths if o[0] == "return"]
+        truth_of = paths[0][2] if paths else (lambda t: None)
+
+        class _Spec(ast.NodeTransformer):
+            """`a if mode == "ab" else b` is the branch selected by the mode under analysis"""
+
+            def visit_IfExp(self, node):
+                self.generic_visit(node)
+                v = truth_of(node.test)
+                return node if v is None else (node.body if v else node.orelse)
+
+        def specialised(n):
+            return _Spec().visit(copy.deepcopy(n)) if any(isinstance(x, ast.IfExp) for x in ast.walk(n)) else n
         if not rets:
             ctx.fail("C18.MODE", op_, f"mode {mode!r} has no successful path (not handled)", construct=f"mode:{mode}:unhandled")
             continue
@@ -171,7 +184,7 @@ def rule_mode(ctx):
         for ev, o in rets:
             missing = any(e[0] == "branch" and isinstance(e[1], ast.Compare) and isinstance(e[1].ops[0], ast.Is) and src(e[1].comparators[0]) == "None"
                           and isinstance(e[1].left, ast.Name) and e[1].left.id == "node" and e[2] for e in ev)
-            text = " ".join(inline_text(e[1]) for e in ev if e[0] == "stmt")
+            text = " ".join(inline_text(specialised(e[1])) for e in ev if e[0] == "stmt")
             if missing and ("Node('file'" in text or 'Node("file"' in text) and ".append(" in text:
                 creates = True
                 # parent must have been found a directory on this path
